@@ -17,6 +17,7 @@ TRUSTED = []
 
 
 LAST_STACK = []
+LAST_QUAL = []
 
 
 def site_of(e):
@@ -24,10 +25,15 @@ def site_of(e):
     on the traceback are kept in LAST_STACK for the classification"""
     fn = "?"
     LAST_STACK.clear()
-    for fr in traceback.extract_tb(e.__traceback__):
-        if "/icalendar/" in fr.filename:
-            fn = fr.name
-            LAST_STACK.append(fr.name)
+    LAST_QUAL.clear()
+    tb = e.__traceback__
+    while tb is not None:
+        code = tb.tb_frame.f_code
+        if "/icalendar/" in code.co_filename:
+            fn = code.co_name
+            LAST_STACK.append(code.co_name)
+            LAST_QUAL.append(getattr(code, "co_qualname", code.co_name))
+        tb = tb.tb_next
     return [type(e).__name__, fn]
 
 
@@ -36,6 +42,8 @@ def classify(known, cls, site):
         c = f.get("class", {})
         if c.get("kind") == "escape" and [cls, site] in c.get("args", []):
             return fid
+        if c.get("kind") == "escape_qual" and LAST_QUAL and [cls, LAST_QUAL[-1]] in c.get("args", []):
+            return fid              # exception class + the qualified name of the innermost icalendar function
         if c.get("kind") == "escape_via" and any(fn in LAST_STACK for fn in c.get("args", [])):
             return fid
     return None
